@@ -22,7 +22,7 @@ class Spec(pipeprops.PropSpec):
                    "the figure of '+' or of some exact cardinality k>1 of the same (property, kind) (documented behaviour)"]
 
     def gen_cases(self, tier, rnd):
-        return pipeprops.gen_basic(tier, rnd, 700, 12000)
+        return pipeprops.gen_basic(tier, rnd, 2500, 40000)
 
     def oracle(self, case, impl):
         ts, cfg = case["runs"][0]
